@@ -66,6 +66,7 @@ func Run(p *load.Program, tier string) *oblig.Set {
 	r.helperRules()
 	r.jumpRules()
 	r.atonRule()
+	r.boundsRule()
 	r.dflt()
 	r.effects()
 	return s
@@ -532,7 +533,7 @@ func (r *ruler) v6() {
 		}
 		ps := events(pa, "call", ".Push")
 		var want []string
-		if condHas(pa, "!=(A1,0) := true") {
+		if condHas(pa, "!=(A1,0) := true") || condHas(pa, "==(A1,0) := false") {
 			want = append(want, "M<-V0")
 		}
 		if par(pa) {
@@ -578,7 +579,7 @@ func (r *ruler) v7() {
 			ok = strings.Join(seq, ";") == strings.Join(want, ";") &&
 				absint.Key(pa.Final["ip"]) == "(.Node("+fnv+"))" &&
 				condHas(pa, strings.Split(tf[0].Res, ", ")[1][:len(strings.Split(tf[0].Res, ", ")[1])-1]+" := true") &&
-				condHas(pa, "!=(.ParamCnt("+fnv+"),A1) := false")
+				(condHas(pa, "!=(.ParamCnt("+fnv+"),A1) := false") || condHas(pa, "==(.ParamCnt("+fnv+"),A1) := true"))
 		}
 		if ok {
 			r.s.OK("V7", key, r.ppos(pa), "callee checked (function, arity), then PushFrame(args, LocalCnt), PushClosure(*Frame), Push(return address), ip = entry")
@@ -600,7 +601,8 @@ func (r *ruler) v7() {
 				seq = append(seq, e.Fn[strings.LastIndex(e.Fn, ".")+1:])
 			}
 		}
-		top := len(condsWith(pa, "==(IP#")) == 1 && strings.HasSuffix(condsWith(pa, "==(IP#")[0], ":= true")
+		top := len(condsWith(pa, "==(IP#")) == 1 && strings.HasSuffix(condsWith(pa, "==(IP#")[0], ":= true") ||
+			len(condsWith(pa, "!=(IP#")) == 1 && strings.HasSuffix(condsWith(pa, "!=(IP#")[0], ":= false")
 		detach := len(events(pa, "call", "SetFrame")) == 1
 		// the other way of detaching: rebuilding the value around the copied frame.
 		// That is the same value only when node, parameter count and local count
@@ -669,7 +671,8 @@ func (r *ruler) v7() {
 		// V13: frame detachment
 		if isFn {
 			k13 := r.key("RET", "frame detachment "+variant)
-			hasFrame := len(condsWith(pa, "!=(.Frame(")) == 1 && strings.HasSuffix(condsWith(pa, "!=(.Frame(")[0], ":= true")
+			hasFrame := len(condsWith(pa, "!=(.Frame(")) == 1 && strings.HasSuffix(condsWith(pa, "!=(.Frame(")[0], ":= true") ||
+				len(condsWith(pa, "==(.Frame(")) == 1 && strings.HasSuffix(condsWith(pa, "==(.Frame(")[0], ":= false")
 			if !hasFrame {
 				continue
 			}
@@ -737,7 +740,7 @@ func (r *ruler) v10() {
 	}
 	ws := []want{
 		{"CALL", "ToFunction.1", "global value.ErrType", "calling a non-function is a type error"},
-		{"CALL", "!=(.ParamCnt(", "global vm.ErrArity", "a wrong argument count is an arity error"},
+		{"CALL", "=(.ParamCnt(", "global vm.ErrArity", "a wrong argument count is an arity error"},
 		{"ATON", "ToString.1", "global value.ErrType", "aton of a non-string is a type error"},
 		{"MOV", "IsNil#", "global value.ErrNil", "assigning nil is a nil error"},
 		{"JMPF", "ToBool.1", "global value.ErrType", "a non-boolean condition is a type error"},
@@ -753,8 +756,12 @@ func (r *ruler) v10() {
 			}
 			c := cs[len(cs)-1]
 			failing := strings.HasSuffix(c, ":= false")
-			if w.cond == "!=(.ParamCnt(" || w.cond == "IsNil#" {
+			if w.cond == "IsNil#" {
 				failing = strings.HasSuffix(c, ":= true")
+			}
+			if w.cond == "=(.ParamCnt(" {
+				// the counts differ
+				failing = strings.HasPrefix(c, "!=(") && strings.HasSuffix(c, ":= true") || strings.HasPrefix(c, "==(") && strings.HasSuffix(c, ":= false")
 			}
 			if !failing {
 				continue
